@@ -33,6 +33,13 @@ theorem ptr_sub (c : Cfg) (v : PVec) : ptr c v - c.P = v.base * c.P := by
     (alloc c m size).1.k.locked = m.k.locked := by
   simp [alloc]
 
+@[simp] theorem alloc_al (c : Cfg) (m : Mach) (size : Nat) :
+    (alloc c m size).1.k.al = m.k.al ++ [(m.k.brk, size)] := by
+  simp [alloc]
+
+@[simp] theorem alloc_fr (c : Cfg) (m : Mach) (size : Nat) : (alloc c m size).1.k.fr = m.k.fr := by
+  simp [alloc]
+
 theorem alloc_brk (c : Cfg) (hP : 0 < c.P) (m : Mach) (size : Nat) :
     (alloc c m size).1.k.brk = m.k.brk + size / c.P + 3 := by
   simp [alloc, blockPages hP]; omega
@@ -58,6 +65,13 @@ theorem alloc_perm (c : Cfg) (hP : 0 < c.P) (m : Mach) (size : Nat) (i : Nat) :
 
 @[simp] theorem dealloc_brk (c : Cfg) (m : Mach) (v : PVec) :
     (dealloc c m v).k.brk = m.k.brk := by
+  simp [dealloc]
+
+@[simp] theorem dealloc_al (c : Cfg) (m : Mach) (v : PVec) : (dealloc c m v).k.al = m.k.al := by
+  simp [dealloc]
+
+@[simp] theorem dealloc_fr (c : Cfg) (m : Mach) (v : PVec) :
+    (dealloc c m v).k.fr = m.k.fr ++ [(v.base, v.cap)] := by
   simp [dealloc]
 
 theorem dealloc_perm (c : Cfg) (hP : 0 < c.P) (m : Mach) (v : PVec) (i : Nat) :
